@@ -71,7 +71,12 @@ P = {
                                   T: ("CfgsPar", dict(MaxCodes=3, MaxAT=4, MaxRT=3, MaxNow=3, MaxPar=2, Depth=6))},
                 genx={Q: ("CfgsPar", 2), T: ("CfgsPar", 3)},
                 sim={Q: ("CfgsPar", 400, 10), T: ("CfgsPar", 6000, 16)},
-                simb=dict(MaxCodes=4, MaxAT=8, MaxRT=6, MaxNow=4, MaxPar=3)),
+                simb=dict(MaxCodes=4, MaxAT=8, MaxRT=6, MaxNow=4, MaxPar=3),
+                more=[dict(family="C17b", mc={Q: ("CfgsPar", dict(MaxCodes=2, MaxAT=3, MaxRT=2, MaxNow=4, MaxPar=2, Depth=7)),
+                                               T: ("CfgsPar", dict(MaxCodes=3, MaxAT=4, MaxRT=3, MaxNow=4, MaxPar=3, Depth=9))},
+                           genx={Q: ("CfgsPar", 6), T: ("CfgsPar", 8)},
+                           sim={Q: ("CfgsPar", 200, 10), T: ("CfgsPar", 3000, 16)},
+                           simb=dict(MaxCodes=4, MaxAT=8, MaxRT=6, MaxNow=5, MaxPar=3))]),
 }
 DEFB = dict(MaxCodes=2, MaxAT=4, MaxRT=3, MaxNow=2, MaxDev=1, MaxPar=1, Depth=6)
 
@@ -206,7 +211,7 @@ def check(prop, tier, seed, replay=None):
         mcfs.append((mcwd, pool.submit(model_check, part["family"], cfgs, bounds(b), mcwd, 8)))
         gx_cfgs, gx_depth = part["genx"][tier]
         gb = bounds(dict(part["mc"][tier][1], Depth=gx_depth))
-        hx, gxstat = gen_exhaustive(part["family"], gx_cfgs, gb, wd)
+        hx, gxstat = gen_exhaustive(part["family"], gx_cfgs, gb, wd, tail_k=(8 if tier == Q else None), seed=seed)
         cap = 12000 if tier == Q else 200000
         gx_total = len(hx)
         if len(hx) > cap:      # keep a seeded sample; the evidence then does not claim exhaustiveness
@@ -216,9 +221,11 @@ def check(prop, tier, seed, replay=None):
         hsim = gen_simulate(part["family"], s_cfgs, bounds(dict(part["simb"], Depth=s_depth)), wd, s_num, seed)
         histories += hx + hsim
         gen_info.append({"family": part["family"], "exhaustive_generation": {"depth": gx_depth, "cfgs": gx_cfgs, "histories": len(hx), "of": gx_total,
-                         "complete": len(hx) == gx_total, "states": gxstat.get("distinct", 0)},
+                         "complete": len(hx) == gx_total, "states": gxstat.get("distinct", 0),
+                         "inert_operations_appended": gxstat.get("inert_ops_appended", 0),
+                         "inert_operations_per_state": "all" if tier != Q else "seeded sample of 8"},
                          "simulated_generation": {"depth": s_depth, "cfgs": s_cfgs, "histories": len(hsim), "seed": seed}})
-        log(f"[gen] {part['family']}: {len(hx)} exhaustive histories of depth {gx_depth}, {len(hsim)} simulated histories of depth {s_depth}")
+        log(f"[gen] {part['family']}: {len(hx)} state-cover histories of depth {gx_depth} (+{gxstat.get('inert_ops_appended', 0)} refused/query operations appended), {len(hsim)} simulated histories of depth {s_depth}")
 
     # 3+4. execute on the real code, validate against the specification
     traces, rep = run_and_validate(binary, histories, wd, "main")
@@ -271,7 +278,15 @@ def check(prop, tier, seed, replay=None):
         nviol += 1
 
     # 6. binding self-test
-    ncorrupt = selftest(binary, histories, wd, seed)
+    try:
+        ncorrupt = selftest(binary, histories, wd, seed)
+    except Indeterminate as ex:
+        if not nviol:
+            raise
+        # violations were reproduced on the real code; the self-test needs histories the implementation
+        # follows, and there may be none left on a tree that breaks the property
+        log(f"[selftest] skipped on a violating tree: {ex}")
+        ncorrupt = 0
 
     # 7. decision tables attached to this property
     table_cov = None
